@@ -297,10 +297,11 @@ class Result:
         self.model = None
         self.detail = ''
         self.expect_sat = False
+        self.rlimit = 0      # largest z3 resource count one solver call of this obligation consumed
 
     def to_json(self):
         return dict(name=self.name, kind=self.kind, tag=self.tag, status=self.status, instances=self.instances,
-                    backend=self.backend, ms=round(self.ms, 1), detail=self.detail)
+                    backend=self.backend, ms=round(self.ms, 1), detail=self.detail, rlimit=self.rlimit)
 
 
 def split_goal(g, depth=0):
@@ -350,6 +351,12 @@ def check_one(o, axioms, timeout_ms, rlimit=None, want_model=True):
     return last
 
 
+# z3 resource units that correspond to about one second of solving on an idle core of this machine (calibrated on the
+# slowest obligations of the unchanged tree, see DESIGN section 16)
+RLIMIT_PER_S = int(os.environ.get('VERIF_RLIMIT_PER_S', '5000000'))
+
+RL_STATE = {'last': 0, 'max_call': 0}
+
 ATTEMPTS = (('default', {}), ('ematch', {'auto_config': False, 'smt.mbqi': False}),
             ('seed7', {'smt.random_seed': 7}), ('seed23-ematch', {'auto_config': False, 'smt.mbqi': False,
                                                                      'smt.random_seed': 23}))
@@ -362,7 +369,11 @@ def _check(o, axioms, goal, timeout_ms, want_model=True):
     ms = 0.0
     for attempt, opts in ATTEMPTS:
         s = z3.Solver()
-        s.set('timeout', timeout_ms if attempt == 'default' else max(2000, timeout_ms // 2))
+        # budget: z3's deterministic resource counter (the verdict then does not depend on how busy the machine is);
+        # the wall-clock limit is only a safety net, eight times what the budget needs on an idle core
+        budget = RLIMIT_PER_S * timeout_ms // 1000
+        s.set('rlimit', budget if attempt == 'default' else max(budget // 2, RLIMIT_PER_S * 2))
+        s.set('timeout', 8 * (timeout_ms if attempt == 'default' else max(2000, timeout_ms // 2)))
         for k, v in opts.items():
             s.set(k, v)
         for a in axioms:
@@ -374,6 +385,12 @@ def _check(o, axioms, goal, timeout_ms, want_model=True):
         t0 = time.time()
         r = s.check()
         ms += (time.time() - t0) * 1000
+        try:
+            now = s.statistics().get_key_value('rlimit count')     # cumulative over the process
+            RL_STATE['max_call'] = max(RL_STATE['max_call'], now - RL_STATE['last'])
+            RL_STATE['last'] = now
+        except Exception:  # noqa
+            pass
         if r == z3.unsat:
             break
         if r == z3.sat and 'smt.mbqi' not in opts:
@@ -423,8 +440,10 @@ def discharge(obls, axioms, timeout_ms=10000, use_cvc5=True):
             continue
         if z3.is_true(o.goal) and not o.expect_sat:
             continue
+        RL_STATE['max_call'] = 0
         r, ms, model, solver = check_one(o, axioms, timeout_ms)
         res.ms += ms
+        res.rlimit = max(res.rlimit, RL_STATE['max_call'])
         if o.expect_sat:
             if r == z3.unsat:
                 res.status = 'vacuous'
